@@ -756,7 +756,8 @@ impl Paragraph {
                     entries.push((current, Entry::cast(c.as_node().unwrap().clone()).unwrap()));
                     current = vec![];
                 }
-                ERROR | COMMENT => {
+                // comments, and the newline that ends each of them
+                ERROR | COMMENT | NEWLINE => {
                     current.push(c);
                 }
                 _ => {}
